@@ -30,6 +30,7 @@ func init() {
 			{Name: "values", Build: "pristine", Fn: c03RunValues, CrashIsViolation: true},
 			{Name: "calls", Build: "pristine", Fn: c03RunCalls, CrashIsViolation: true},
 			{Name: "integer-extremes", Build: "pristine", Fn: c03RunExtremes, CrashIsViolation: true},
+			{Name: "long-texts", Build: "pristine", Fn: c03RunLong, CrashIsViolation: true},
 			{Name: "nesting", Build: "pristine", Fn: c03RunNesting, CrashIsViolation: true, ProcsFn: func(tier string) int { return len(c03NestingItems(tier == "thorough")) }},
 		},
 		Judge: c03Judge,
@@ -244,6 +245,45 @@ func c03RunBytes(r *core.Run) {
 			if (i+bi)%step == 0 {
 				for _, ch := range c04Alphabet {
 					try(e[:i] + ch + e[i:]) // insert
+				}
+			}
+		}
+	}
+}
+
+// c03RunLong: runs of one character (one to four bytes wide, an invalid byte, blanks) of every length from 1 to 70 and around
+// every power of two up to 65536, bare and inside every quoting construct, in valid and in invalid expressions: size
+// thresholds of scanners, decoders and of the error messages that quote the expression.
+func c03RunLong(r *core.Run) {
+	raws, texts := c03ByteDocs()
+	var sizes []int
+	for n := 1; n <= 70; n++ {
+		sizes = append(sizes, n)
+	}
+	for _, n := range []int{100, 127, 128, 129, 200, 255, 256, 257, 300, 511, 512, 513, 1000, 1023, 1024, 1025, 4095, 4096, 4097, 65535, 65536, 65537} {
+		sizes = append(sizes, n)
+	}
+	chars := []string{"a", "é", "漢", "😀", "\xff", "\n", " ", "ab", "a漢", "\\u00e9", "1"}
+	wraps := [][2]string{{"", ""}, {"'", "'"}, {`"`, `"`}, {"`\"", "\"`"}, {"a.", ""}, {"'", ""}, {`"`, ""}, {"`", ""}, {"[", ""}, {"a ", " b"}, {"foo(", ")"}, {"$", ""}, {`a."`, `".b`},
+		{`{"`, `": a}`}, {"a[?b == '", "']"}, {"", " ||"}, {"", ")"}, {"(", ""}, {"a.b.c.d == ", " !"}, {"join('", "', a) )"}, {"`[\"", "\"]`"}, {"`{\"", "\": 1}`"}, {"a[", "]"}, {"a[:", "]"}, {"let $", " = a in $x"}, {"&", ""}, {"abs(`", "`)"}}
+	r.Bound("long_text_sizes", len(sizes))
+	r.Bound("long_text_characters", chars)
+	r.Bound("long_text_wrappers", len(wraps))
+	k := 0
+	for _, n := range sizes {
+		for _, ch := range chars {
+			k++
+			if !r.Mine(k) || r.Expired() {
+				continue
+			}
+			body := strings.Repeat(ch, n)
+			for _, w := range wraps {
+				e := w[0] + body + w[1]
+				r.Add("states", 1)
+				r.Begin(map[string]any{"expr": trunc(e, 120), "doc": "", "long": true})
+				if v := c03Expr(r, e, "long-texts", raws[:1], texts[:1]); v != nil {
+					v.Point = map[string]any{"kind": "long", "ch": ch, "n": n, "pre": w[0], "suf": w[1], "expr": trunc(e, 120), "doc": ""}
+					r.Violate(v)
 				}
 			}
 		}
@@ -613,6 +653,10 @@ func c03RunNesting(r *core.Run) {
 
 func c03Judge(r *core.Run, phase string, pt map[string]any) *core.Violation {
 	e := pstr(pt, "expr")
+	if pstr(pt, "kind") == "long" {
+		raws, texts := c03ByteDocs()
+		return c03Expr(r, pstr(pt, "pre")+strings.Repeat(pstr(pt, "ch"), pint(pt, "n"))+pstr(pt, "suf"), "long-texts", raws[:1], texts[:1])
+	}
 	if strings.HasPrefix(e, "family:") {
 		f := strings.Fields(e)
 		n, _ := strconv.Atoi(strings.TrimPrefix(f[1], "n="))
